@@ -130,6 +130,106 @@ def suite_backoff(report, tier, seed, prop="C19"):
     report.obligation("mon:backoff", "monitor", mon_ok, "closed form min(base*2^k, max), jitter range, maximum, reset rule, no panic (independent arithmetic)")
 
 
+def suite_stability(report, tier, seed, prop="C19"):
+    """Reconnect histories over real time: failed transports, connections that get a successful / failing / no CONNACK,
+    ended quickly or after outliving the stability period.  The wait before attempt k+1 must be min(base*2^k, max)
+    with k counted from the last connection that stayed established longer than the stability period."""
+    rng = Rng(seed, "stability")
+    n = 6 if tier == "quick" else 60
+    MS = 1000000
+    reqs, metas = [], []
+    for i in range(n):
+        base, mx, stable = rng.choice([50 * MS, 100 * MS, NS]), rng.choice([NS, 3 * NS, 60 * NS]), 250 * MS
+        session = [f"cli.new v=5 jitter=none base={base} max={mx} stable={stable} | ka=60", "cli.op op=start", "cli.transition to=Connecting"]
+        plan = []
+        slept = 0
+        kinds = [rng.choice(["refused", "success", "success", "noconnack", "noconnack", "rejected"]) for _ in range(rng.choice([4, 6, 9]))]
+        longs = [False] * len(kinds)
+        if i % 2 == 0:
+            # a short-lived success, later an attempt that is established for long but never gets (or is refused by) a CONNACK
+            at = rng.randint(0, len(kinds) - 2)
+            kinds[at] = "success"
+            later = rng.randint(at + 1, len(kinds) - 1)
+            kinds[later] = rng.choice(["noconnack", "noconnack", "rejected"])
+            longs[later] = True
+            slept = 1
+        for kind, forced in zip(kinds, longs):
+            long = forced or (kind != "refused" and slept < 2 and rng.chance(0.35))
+            slept += 1 if (long and not forced) else 0
+            plan.append((kind, long))
+            if kind == "refused":
+                session += ["cli.error kind=establish", "cli.transition to=PendingReconnect measure=1"]
+            else:
+                session += ["cli.transition to=Connected", "cli.svc cap=4096", "cli.wc"]
+                if kind == "success":
+                    session.append("cli.data b=x2003000000")
+                elif kind == "rejected":
+                    session.append("cli.data b=x2003008700")
+                if long:
+                    session.append("cli.sleep ms=400")
+                if kind != "rejected":
+                    session.append("cli.error kind=closed")
+                session.append("cli.transition to=PendingReconnect measure=1")
+            session += ["cli.backoff", "cli.advance rand=0", "cli.transition to=Connecting"]
+        metas.append((len(reqs) + 1, base, mx, stable, plan, session))
+        reqs.append("session.reset")
+        reqs += session
+    from gv import harness_batch
+    impl = harness_batch(reqs)
+    # the model takes the connection's age as an input: hand it the one the implementation measured
+    mreqs = []
+    for r, a in zip(reqs, impl):
+        if "measure=1" in r:
+            since = resp_fields(a)[0].get("since", "none")
+            mreqs.append(r + f" lasted={since if since != 'none' else 0}")
+        else:
+            mreqs.append(r)
+    model = driver_batch(mreqs)
+    corr_ok, mon_ok = True, True
+    for (pos, base, mx, stable, plan, session) in metas:
+        outs = impl[pos:pos + len(session)]
+        mouts = model[pos:pos + len(session)]
+        report.case("|".join(session))
+        report.traces_validated += 1
+        k, att = 0, 0
+        measured = None
+        diverged = False
+        for j, (l, a, b) in enumerate(zip(session, outs, mouts)):
+            fa, _ = resp_fields(a)
+            if canon_comps(a) != canon_comps(b) and not diverged:
+                corr_ok = False
+                diverged = True       # the implementation's own trace is still judged below
+                report.add_finding(Finding(prop, "corr:stability", {"clause": "model-vs-impl", "verb": l.split(" ")[0]},
+                                           "reconnect history: implementation and model disagree", session[:j + 1] + ["# impl: " + a, "# model: " + b], has_input=False))
+            if not fa.get("res", "").startswith(("ok", "err")):
+                break
+            if "measure=1" in l:
+                measured = fa.get("since", "none")
+            elif l == "cli.backoff":
+                kind, long = plan[att]
+                report.count(f"stability.{kind}.{'long' if long else 'short'}")
+                stable_conn = kind == "success" and measured not in (None, "none") and int(measured) > stable
+                if stable_conn:
+                    k = 0
+                want = min(base * 2 ** k, mx)
+                if int(fa["next"]) != want:
+                    mon_ok = False
+                    clause = "reset-without-stable-connection" if int(fa["next"]) < want else "no-reset-after-stable-connection"
+                    report.add_finding(Finding(prop, "mon:stability", {"clause": clause, "attempt": kind},
+                                               f"after attempt {att + 1} ({kind}, established for {measured} ns, stability period {stable} ns) the next wait is "
+                                               f"{fa['next']} ns, expected min(base*2^{k}, max) = {want} ns", session[:j + 1] + ["# impl: " + a]))
+                    break
+                att += 1
+            elif l.startswith("cli.advance"):
+                if int(fa["wait"]) != min(base * 2 ** k, mx):
+                    mon_ok = False
+                    report.add_finding(Finding(prop, "mon:stability", {"clause": "closed-form"}, f"wait {fa['wait']} differs from min(base*2^{k}, max)", session[:j + 1]))
+                    break
+                k += 1
+    report.obligation("corr:stability", "correspondence", corr_ok, f"{len(reqs)} client-sim calls over real time (measured connection ages fed to the model)")
+    report.obligation("mon:stability", "monitor", mon_ok, "waits follow min(base*2^k, max) with k restarting only after a connection that outlived the stability period")
+
+
 # ------------------------------------------------------------------------------------------------
 # lifecycle (C12)
 # ------------------------------------------------------------------------------------------------
